@@ -120,6 +120,10 @@ def run(ctx, widen=False):
                     if pos.startswith("‛"):
                         body = ("\\" * (nb % 2) + q)[:2].ljust(2, "a") + tail
                     dprogs.append(pos.replace("{}", body.replace("`", "")))
+                    # the same with the *other* quote character behind the `#`: a constant holding both kinds of quote is where an
+                    # escaper that lets Python choose the delimiter (repr) changes its mind
+                    if q in ('"', "'") and "#" in tail and not pos.startswith("‛"):
+                        dprogs.append(pos.replace("{}", (body + ("'" if q == '"' else '"')).replace("`", "")))
     ctx.bump("dictionary-code strings", len(dprogs))
     progs += dprogs
     nr = 20000 if thorough else 2500
